@@ -741,9 +741,12 @@ impl RADAU {
                             break 'main;
                         }
                         ControlFlag::ModifiedSolution => {
-                            // Update derivatives at new (x, y).
+                            // Update derivatives and the error scale at new (x, y).
                             f.ode(x, &y, &mut f0);
                             evals.ode += 1;
+                            for i in 0..n {
+                                scal[i] = atol[i] + rtol[i] * y[i].abs();
+                            }
                         }
                         ControlFlag::XOut(xo) => {
                             xout = Some(xo);
